@@ -495,6 +495,7 @@ class C01(Property):
         "Flatland.Flat.Proofs.emitsB_prS_true",
         "Flatland.Flat.Proofs.second_trip_needs_blankSettled",
         "Flatland.Flat.Proofs.second_trip_needs_prefixFree",
+        "Flatland.Flat.Proofs.sparse_tree_changes_second",
         "Flatland.Flat.Proofs.prS_eq_pr",
         "Flatland.Flat.Proofs.okS_of_okP",
         "Flatland.Flat.Proofs.okSB_sound",
